@@ -70,6 +70,9 @@ var (
 )
 
 func hook(site string) {
+	if strings.HasPrefix(site, "yield:") {
+		return // scheduling points of the concurrency check (C11); the crash checks count store / log writes only
+	}
 	pointMu.Lock()
 	match := armFilter == "" || strings.Contains(site, armFilter)
 	if match {
